@@ -24,9 +24,9 @@ Theorem C04_extras_ignored : forall e k n sid vs Js Jl,
   /\ decode e sid (encode e sid (VStruct vs)) = DOk (norm_struct e sid (VStruct vs)) [].
 Proof. exact RoundTripProofs.extras_ignored. Qed.
 
-(* the same into any admissible (also reused-but-reset) target, explicit fuel condition, any struct type *)
+(* the same into ANY target (used or fresh), explicit fuel condition, any struct type *)
 Theorem C04_extras_ignored_into : forall e k sid vs prior Js tail,
-  wf_schema k e -> has_type e (TStruct sid) (VStruct vs) -> zlike e (TStruct sid) prior ->
+  wf_schema k e -> has_type e (TStruct sid) (VStruct vs) ->
   junks_ok None (fields_of e sid) Js ->
   (forall fd, In fd (fields_of e sid) -> follows (ftag fd) tail) ->
   (need_list vs + k + 3 <= 2 * length (encx_fields e vs (fields_of e sid) Js ++ tail) + 64)%nat ->
@@ -61,14 +61,39 @@ Theorem C04_declared_default : forall f e sid vs i fd d,
   end.
 Proof. exact GenProofs.reset_default_declared. Qed.
 
-(* REFUTED on the unchanged tree for reused targets: an optional member without a declared default keeps the
-   stale value of the previous decode (the generated ResetDefault does not touch it) *)
-Theorem C04_reuse_refuted :
+(* every member is assigned by ResetDefault - its declared default or, where none is declared, the zero value of
+   its type (struct members recursively) - whatever the target held *)
+Theorem C04_reset_every_member : forall f e sid v i fd,
+  nth_error (fields_of e sid) i = Some fd ->
+  match reset_default (S f) e sid v with
+  | VStruct l => nth_error l i = Some (match fdef fd with
+                                       | Some d => d
+                                       | None => match fty fd with TStruct s => reset_default f e s v | t => zero_of f e t end
+                                       end)
+  | _ => False
+  end.
+Proof. exact GenProofs.reset_default_member. Qed.
+
+(* REUSED TARGETS, FULL STRENGTH: the result of decoding does not depend on what the target held before - any
+   schema environment, any struct type, ANY two prior targets (of any shape), any bytes (valid, extended,
+   truncated, hostile). Decoding into a used target is decoding into a fresh one. (Codec/Pinned.v
+   C04_reuse_pinned_refuted / C04_empty_bytes_pinned_refuted: the pinned code kept stale optional members and
+   stale bytes of an empty byte vector.) *)
+Theorem C04_reuse : forall e sid p1 p2 bs, decode_into e sid p1 bs = decode_into e sid p2 bs.
+Proof. exact GenProofs.decode_into_prior_indep. Qed.
+Theorem C04_reuse_fresh : forall e sid prior bs, decode_into e sid prior bs = decode e sid bs.
+Proof. exact GenProofs.decode_into_fresh. Qed.
+(* nested struct members and struct-typed elements likewise (ReadBlock resets first), at any fuel *)
+Theorem C04_reuse_member : forall fuel e tag req sid p1 p2 bs,
+  dec_var fuel e tag req (TStruct sid) p1 bs = dec_var fuel e tag req (TStruct sid) p2 bs.
+Proof. exact GenProofs.dec_var_struct_prior_indep. Qed.
+(* the witness of the former finding on the repaired model *)
+Theorem C04_reuse_witness :
   let e := [[ {| ftag := 0; freq := true; fty := TI32; fdef := None |};
               {| ftag := 1; freq := false; fty := TStr; fdef := None |} ]] in
   decode_into e 0 (VStruct [VInt 7; VStr [98; 111; 111; 109]]) (w_int32 5 0)
-  = DOk (VStruct [VInt 5; VStr [98; 111; 111; 109]]) [].
-Proof. exact GenProofs.reuse_refuted_witness. Qed.
+  = DOk (VStruct [VInt 5; VStr []]) [].
+Proof. exact GenProofs.reuse_witness. Qed.
 
 (* FIRST CLAUSE AT FULL STRENGTH: unknown fields at EVERY struct level. xfields e fds vs Js body (RoundTrip.v: xenc)
    says that body encodes the members vs with the groups Js of unknown fields in front of the members, and that
@@ -91,9 +116,9 @@ Theorem C04_code_schemas_extras_nested : forall sid vs Js body Jl, fits_model si
   decode env0 sid (body ++ ser_fields Jl) = DOk (norm_struct env0 sid (VStruct vs)) (ser_fields Jl)
   /\ decode env0 sid (encode env0 sid (VStruct vs)) = DOk (norm_struct env0 sid (VStruct vs)) [].
 Proof. exact RoundTripExamples.env0_extras_nested. Qed.
-(* the same for any struct type (recursive ones included) and any admissible target, with the explicit fuel hypothesis *)
+(* the same for any struct type (recursive ones included) and ANY target, with the explicit fuel hypothesis *)
 Theorem C04_extras_nested_into : forall e k sid vs prior Js body tail,
-  wf_schema k e -> has_type e (TStruct sid) (VStruct vs) -> zlike e (TStruct sid) prior ->
+  wf_schema k e -> has_type e (TStruct sid) (VStruct vs) ->
   xfields e (fields_of e sid) vs Js body -> junks_ok None (fields_of e sid) Js ->
   (forall fd, In fd (fields_of e sid) -> follows (ftag fd) tail) ->
   (need_list vs + k + 3 <= 2 * length (body ++ tail) + 64)%nat ->
@@ -110,4 +135,8 @@ Print Assumptions C04_member_absent_required.
 Print Assumptions C04_required_absent.
 Print Assumptions C04_member_absent_optional.
 Print Assumptions C04_declared_default.
-Print Assumptions C04_reuse_refuted.
+Print Assumptions C04_reset_every_member.
+Print Assumptions C04_reuse.
+Print Assumptions C04_reuse_fresh.
+Print Assumptions C04_reuse_member.
+Print Assumptions C04_reuse_witness.
